@@ -202,3 +202,40 @@ theorem mrpMat_orthogonal (r : Fin 3 → ℝ) :
     rw [Matrix.det_smul, qmat_det, qnormSq_mrpQ]; simp; field_simp
 
 end Rot
+
+namespace Rot
+
+/-- conjugation of the hat map by a (scaled) rotation: `(R y)^ R = |q|² R ŷ` -/
+theorem hat_qmat_mulVec (q : Fin 4 → ℝ) (y : Fin 3 → ℝ) :
+    hat ((qmat q).mulVec y) * qmat q = qnormSq q • (qmat q * hat y) := by
+  mat_entries <;>
+    simp [hat, qmat, qnormSq, Matrix.mul_apply, Matrix.mulVec, dotProduct, Fin.sum_univ_succ] <;> ring
+
+theorem hat_qmat_mulVec_unit (q : Fin 4 → ℝ) (h : qnormSq q = 1) (y : Fin 3 → ℝ) :
+    hat ((qmat q).mulVec y) * qmat q = qmat q * hat y := by
+  rw [hat_qmat_mulVec, h, one_smul]
+
+theorem hat_add (a b : Fin 3 → ℝ) : hat (a + b) = hat a + hat b := by
+  mat_entries <;> simp [hat] <;> ring
+
+theorem hat_mulVec_self (a : Fin 3 → ℝ) : (hat a).mulVec a = 0 := by
+  funext i; fin_cases i <;> simp [hat, Matrix.mulVec, dotProduct, Fin.sum_univ_succ] <;> ring
+
+/-- the unit quaternion of an MRP -/
+noncomputable def mrpUnitQ (r : Fin 3 → ℝ) : Fin 4 → ℝ := (1 / (1 + nsq r)) • mrpQ r
+
+theorem qnormSq_mrpUnitQ (r : Fin 3 → ℝ) : qnormSq (mrpUnitQ r) = 1 := by
+  have h := one_add_nsq_pos r
+  have : qnormSq (mrpUnitQ r) = (1 / (1 + nsq r)) ^ 2 * qnormSq (mrpQ r) := by
+    simp only [qnormSq, mrpUnitQ, Pi.smul_apply, smul_eq_mul]; ring
+  rw [this, qnormSq_mrpQ]; field_simp
+
+theorem mrpMat_eq_qmat (r : Fin 3 → ℝ) : mrpMat r = qmat (mrpUnitQ r) := by
+  unfold mrpMat mrpUnitQ
+  rw [qmat_smul]; congr 1; rw [div_pow, one_pow]
+
+theorem hat_mrpMat_mulVec (r : Fin 3 → ℝ) (y : Fin 3 → ℝ) :
+    hat ((mrpMat r).mulVec y) * mrpMat r = mrpMat r * hat y := by
+  rw [mrpMat_eq_qmat]; exact hat_qmat_mulVec_unit _ (qnormSq_mrpUnitQ r) y
+
+end Rot
